@@ -34,7 +34,7 @@ ASSUMPTIONS = ["deletions from inside act remove the acting agent itself or an a
                "population changes happen between steps and in the two round hooks only, never inside act",
                "order is checked only between events sent to the same agent in the same step and handled in the same step"]
 FAULT_KINDS = ["agent_deleted_with_events_in_flight", "reconfiguration_with_events_in_flight", "send_to_dead_id", "delayed_event"]
-PROBES = ["deletion_inside_act", "sent_from_round_hook", "broadcast_event", "event_to_deleted_agent", "event_after_ids_shifted", "delayed_odd_wait", "non_multiple_delay", "two_events_same_agent_same_step",
+PROBES = ["event_without_handler", "model_reset_with_events_in_flight", "deletion_inside_act", "sent_from_round_hook", "broadcast_event", "event_to_deleted_agent", "event_after_ids_shifted", "delayed_odd_wait", "non_multiple_delay", "two_events_same_agent_same_step",
           "delete_in_begin_hook_after_distribution", "decimal_dt_delay"]
 EXHAUSTIVE = {"quick": False, "thorough": False}
 
@@ -70,10 +70,12 @@ def generate(spec):
             elif r < 0.75:
                 op = {"op": "create", "type": rng.choice(["a", "b"])}
                 next_id += 1
-            elif r < 0.85:
+            elif r < 0.82:
                 sp = [["a", rng.choice([1, 2])], ["b", rng.choice([0, 1])]]
                 op = {"op": "configure", "spec": sp}
                 next_id += sum(c for _, c in sp)
+            elif r < 0.87:
+                op = {"op": "reset"}            # the model is emptied; events in flight survive, ids are not reused
             else:
                 op = {"op": "set_state", "id": rng.randrange(0, next_id + 1), "state": rng.choice(["idle", "busy", "done"])}
             pop.append({"k": k, "where": where, **op})
@@ -97,7 +99,8 @@ def generate(spec):
                 to = sends[-1]["to"]            # several events to the same agent
                 if rng.random() < 0.7:
                     frm, delay = sends[-1]["from"], sends[-1]["delay"] if sends[-1]["k"] == k else delay
-            sends.append({"k": k, "from": frm, "uid": uid, "to": to, "delay": delay, "name": rng.choice(["ping", "pong"])})
+            sends.append({"k": k, "from": frm, "uid": uid, "to": to, "delay": delay,
+                          "name": rng.choice(["ping", "pong", "ping", "pong", "noise"])})   # nobody has a handler for "noise"
     # deletions from inside act (the acting agent itself, or one created before it: both have already
     # handled their events and acted in this step)
     acts = []
@@ -175,8 +178,10 @@ def execute(case):
 
     def note_destructive(op):
         nonlocal ids_shifted
-        if op["op"] in ("delete", "configure"):
+        if op["op"] in ("delete", "configure", "reset"):
             ids_shifted = True
+        if op["op"] == "reset":
+            res.probe("model_reset_with_events_in_flight")
 
     def apply_acts(k):
         # agents act in list order; an act deletion only happens if its acting agent is still alive at that moment
@@ -240,8 +245,14 @@ def execute(case):
     sent_uids = set()
     any_delayed = False
     n_dead = 0
+    noise = {s_["uid"] for s_ in case["sends"] if s_.get("name") == "noise"}
     for (ks, uid, to, delay) in w.sent:
         sent_uids.add(uid)
+        if uid in noise:
+            res.probe("event_without_handler")
+            if handled_by_uid.get(uid):
+                res.violate("C11.phantom", {"uid": uid, "name": "noise", "handled": handled_by_uid[uid]})
+            continue
         wait = expected_wait(delay, dt)
         if delay is not None:
             any_delayed = True
